@@ -220,12 +220,22 @@ func checkC16(c *core.Ctx, r *core.Report) {
 				continue
 			}
 			bo, ok := ifi.Cond.(*ssa.BinOp)
-			if !ok || bo.Op != token.EQL {
+			if !ok || (bo.Op != token.EQL && bo.Op != token.NEQ) {
 				continue
 			}
-			if k, ok := core.ConstIntValue(bo.Y); ok && k == numVal && numVal >= 0 {
-				if _, isParam := bo.X.(*ssa.Parameter); !isParam && len(b.Succs[0].Preds) == 1 {
-					arm = b.Succs[0]
+			// the arm is the successor taken when the type IS Number: the true edge of `==`, the false
+			// edge of `!=` (the early-return form `if dType != jp.Number { return 0 }`)
+			taken := 0
+			if bo.Op == token.NEQ {
+				taken = 1
+			}
+			x, y := bo.X, bo.Y
+			if _, isK := x.(*ssa.Const); isK {
+				x, y = y, x
+			}
+			if k, ok := core.ConstIntValue(y); ok && k == numVal && numVal >= 0 {
+				if _, isParam := x.(*ssa.Parameter); !isParam && len(b.Succs[taken].Preds) == 1 {
+					arm = b.Succs[taken]
 				}
 			}
 		}
